@@ -31,6 +31,16 @@ def crowd(kw, **extra):
     return scenarios(**a)
 
 
+def tight(kw, **extra):
+    """short sub-array observations following each other within a few steps, plan possibly not in start order:
+    begin and finish transitions of different observations fall into the same telescope pass"""
+    a = dict(min_obs=2, start_gaps=(1, 2, 3), overlap=True, modes=('roomy',), max_duration=3, unsorted='maybe')
+    a.update(kw)
+    a['max_obs'] = min(a.get('max_obs', 4), 4)
+    a.update(extra)
+    return scenarios(**a)
+
+
 def limited(kw, **extra):
     """plenty of machines and arrays but a small ingest-machine limit that overlapping ingests run into"""
     a = dict(min_obs=3, limit_binds=True, modes=('roomy',), start_gaps=(0, 1, 2, 3), max_duration=10)
@@ -141,7 +151,7 @@ class C05(SimSpec):
         crowd = scenarios(min_obs=3, start_gaps=(0, 0, 0, 1), overlap=True, modes=('roomy',), delays=True, **kw)
         crowd2 = scenarios(min_obs=3, start_gaps=(0, 0, 1), few_machines=True, **kw)
         probe = scenarios(modes=('tiering',), **kw)
-        return mix((3, main), (3, crowd), (1, crowd2), (1, limited(kw, delays=True)),
+        return mix((3, main), (2, crowd), (1, crowd2), (1, limited(kw, delays=True)), (2, tight(kw)),
                    (1, scenarios(unsorted=True, min_obs=2, delays=True, **kw)), (1, probe))
 
     def sig(self, v, tr):
@@ -294,7 +304,7 @@ class C04(SimSpec):
     def strategy(self, tier):
         kw = self.gen_kwargs(tier)
         return mix((4, scenarios(delays=True, min_obs=2, **kw)), (1, scenarios(delays=True, **kw)),
-                   (2, crowd(kw, delays=True)), (1, scenarios(unsorted=True, min_obs=2, delays=True, **kw)),
+                   (2, crowd(kw, delays=True)), (1, tight(kw)), (1, scenarios(unsorted=True, min_obs=2, delays=True, **kw)),
                    (3, scenarios(adversary=True, delays=True, **kw)))
 
     def aborted(self, tr):
@@ -438,7 +448,7 @@ class C08(SimSpec):
         return mix((3, scenarios(min_obs=2, delays=True, **kw)),
                    (1, scenarios(min_obs=2, few_machines=True, **kw)),
                    (2, crowd(kw, min_obs=3, delays=True)),
-                   (2, limited(kw)),
+                   (2, limited(kw)), (2, tight(kw)),
                    (1, scenarios(unsorted=True, min_obs=2, **kw)),
                    (1, scenarios(min_obs=3, start_gaps=(0, 0, 1), **kw)))
 
@@ -590,7 +600,7 @@ class C13(SimSpec):
 
     def strategy(self, tier):
         kw = self.gen_kwargs(tier)
-        base = mix((3, scenarios(min_obs=2, delays=True, **kw)), (2, crowd(kw)),
+        base = mix((3, scenarios(min_obs=2, delays=True, **kw)), (2, crowd(kw)), (1, tight(kw)),
                    (1, scenarios(unsorted=True, min_obs=2, **kw)), (1, scenarios(**kw)))
 
         def add(pair):
@@ -694,7 +704,7 @@ class C19(SimSpec):
 
     def strategy(self, tier):
         kw = self.gen_kwargs(tier)
-        return mix((3, scenarios(delays=True, **kw)), (1, crowd(kw, delays=True)),
+        return mix((3, scenarios(delays=True, **kw)), (1, crowd(kw, delays=True)), (1, tight(kw)),
                    (1, scenarios(unsorted=True, min_obs=2, delays=True, **kw)))
 
     def nontrivial(self, tr):
